@@ -544,13 +544,26 @@ def SQRTPI(
 @xl.register()
 @xl.validate_args
 def SUM(
-        *numbers: Tuple[func_xltypes.XlNumber]
+        *numbers
 ) -> func_xltypes.XlNumber:
     """The SUM function adds values.
 
     https://support.office.com/en-us/article/
         sum-function-043e1c7d-7726-4e80-8f32-07b23e057f89
     """
+    # Text found in a range is ignored, whatever it looks like ("12", "mar",
+    # "true", "inf"); only text given directly as an argument is converted.
+    values = []
+    for number in numbers:
+        if isinstance(number, func_xltypes.Array):
+            values.extend(
+                item for item in number.flat
+                if not func_xltypes.Text.is_type(item))
+        else:
+            values.append(number)
+    numbers = xl._validate(
+        Tuple[func_xltypes.XlNumber], values, 'numbers')
+
     # If no non numeric cells, return zero (is what excel does)
     if len(numbers) == 0:
         return 0
